@@ -48,4 +48,18 @@ run)
   git -C /repo checkout -- .
   git -C /verif checkout -- evidence 2>/dev/null
   ;;
+runcopy)
+  # like run, but on a scratch worktree (VERIF_REPO) so that /repo is left alone while other checks use it
+  id=$1; shift
+  wt=/tmp/seedrun_$$
+  git -C /repo worktree add --detach $wt HEAD >/dev/null 2>&1 || exit 2
+  git -C $wt apply /verif/seeded/$id/patch.diff || { git -C /repo worktree remove --force $wt; exit 2; }
+  cd /verif
+  for c in "$@"; do
+    out=$(VERIF_REPO=$wt VERIF_EVIDENCE_DIR=/tmp/seedrun_ev_$$ ./check $c --tier quick 2>&1); rc=$?
+    echo "seed=$id check=$c rc=$rc $(echo "$out" | grep -c '^VIOLATION') violation lines; $(echo "$out" | grep -m1 'violating events\|^OK\|INFRA')"
+  done
+  git -C /repo worktree remove --force $wt
+  rm -rf /tmp/seedrun_ev_$$
+  ;;
 esac
